@@ -315,6 +315,52 @@ func ruleWriteIfNeeded(c *core.Ctx) {
 			c.Check(why == "", rule, key, ret.Pos(), "writes the new contents, or skips the write only where the existing contents were read and are equal", why)
 		}
 	}
+	// and the converse, which is what makes regeneration idempotent: once the existing contents are known to be equal,
+	// nothing is written — no further condition (mode, mtime, size) may send an unchanged file to os.WriteFile
+	nEq, rewrites := 0, false
+	for _, ib := range sf.Blocks {
+		if len(ib.Instrs) == 0 {
+			continue
+		}
+		ifi, ok := ib.Instrs[len(ib.Instrs)-1].(*ssa.If)
+		if !ok {
+			continue
+		}
+		cond, neg := stripNot(ifi.Cond)
+		succ := ib.Succs[0]
+		if neg {
+			succ = ib.Succs[1]
+		}
+		dummy := false
+		if !trueImpliesEqual(cond, filename, contents, 0, &dummy) {
+			continue
+		}
+		nEq++
+		seen := map[*ssa.BasicBlock]bool{succ: true}
+		work := []*ssa.BasicBlock{succ}
+		for len(work) > 0 {
+			b := work[len(work)-1]
+			work = work[:len(work)-1]
+			for _, ins := range b.Instrs {
+				if call, ok := ins.(*ssa.Call); ok {
+					if cf := call.Common().StaticCallee(); cf != nil && cf.Object() != nil {
+						switch core.FullName(cf.Object().(*types.Func)) {
+						case "os.WriteFile", "os.Create", "os.OpenFile", "os.Remove", "os.Rename", "os.Chmod":
+							rewrites = true
+						}
+					}
+				}
+			}
+			for _, s2 := range b.Succs {
+				if !seen[s2] {
+					seen[s2] = true
+					work = append(work, s2)
+				}
+			}
+		}
+	}
+	c.Check(nEq > 0 && !rewrites, rule, "WriteFileIfNeeded/equal contents are never rewritten", d.Pos(), "no file-system write is reachable once the existing contents are known to equal the new ones",
+		"a file whose contents already equal the new contents can still be written (a further condition stands between the comparison and the skip): regenerating an unchanged package touches files, so output is not idempotent and dependent builds re-run")
 	c.Check(usesRead, rule, "WriteFileIfNeeded/existing<-os.ReadFile(filename)", d.Pos(), "existing content is read from the target path", "the existing content is not obtained by os.ReadFile(filename)")
 }
 
